@@ -79,10 +79,9 @@ func pruneDocNulls(doc *partialDoc) *partialDoc {
 func pruneAryNulls(ary *partialArray) *partialArray {
 	newAry := []*lazyNode{}
 
+	// RFC 7396 treats arrays as opaque values: elements are kept as they are,
+	// including null members of objects inside the array.
 	for _, v := range *ary {
-		if v != nil {
-			pruneNulls(v)
-		}
 		newAry = append(newAry, v)
 	}
 
